@@ -171,3 +171,13 @@ def u_gd1_std(ctx):
 @unit(P, "loop[ExtendedGeneticMap.gdist1g]", "A2", targets=[GM + "ExtendedGeneticMap.py:ExtendedGeneticMap.gdist1g"])
 def u_gd1_ext(ctx):
     prove_gdist1g(ctx, GM + "ExtendedGeneticMap.py", "ExtendedGeneticMap")
+
+
+# the crossover-probability clause of the matrices: interp_xoprob stores mapfn(gdist1g(chr, interp_genpos(chr, phys))) of the map
+# supplied NOW, whatever positions the matrix carried before (same unit as C02's)
+@unit(P, "A1[interp_xoprob == mapfn(gdist1g(chr, interp_genpos(chr, phys))) and stores both]", "A1", targets=[
+    "pybrops/popgen/gmap/DenseGeneticMappableMatrix.py:DenseGeneticMappableMatrix.interp_xoprob",
+    "pybrops/popgen/gmap/HaldaneMapFunction.py:HaldaneMapFunction.rprob1g"])
+def u_interp_xoprob(ctx):
+    from contracts import C02 as _c02          # imported here: contracts.C02 itself imports this module
+    return _c02.u_interp(ctx)
